@@ -299,6 +299,7 @@ impl Property for C14 {
             with_ay: ay,
             with_keyb: r.bool(),
             with_mouse: r.bool(),
+            fe_low: if r.bool() { Some(r.u8() & 7) } else { None },
         };
         let encode = |s: &SnapState, fmt: usize, opt: &SzxOptions| -> Vec<u8> {
             if fmt == 0 {
